@@ -20,6 +20,8 @@ func init() {
 type c17Res struct {
 	ArchetypeResourceLeafMixin
 	closes  int
+	// Close reports an error (after having closed): every other resource must still be closed, and Run must report it
+	closeErr error
 	commits *int
 	readErr error
 	slow    bool
@@ -43,10 +45,11 @@ func (r *c17Res) Close() error {
 		verifYield() // cleanup takes time
 	}
 	r.closes++
-	return nil
+	return r.closeErr
 }
 
 var errC17Resource = errors.New("resource failure")
+var errC17Close = errors.New("close failure")
 
 const (
 	c17Loop = iota
@@ -60,6 +63,12 @@ const (
 func c17Context(mode int, commits *int) (*MPCalContext, []*c17Res) {
 	r1 := &c17Res{commits: commits, slow: true}
 	r2 := &c17Res{commits: commits}
+	if verifChoose("close.fails.r1", 2) == 1 {
+		r1.closeErr = errC17Close
+	}
+	if verifChoose("close.fails.r2", 2) == 1 {
+		r2.closeErr = errC17Close
+	}
 	if mode == c17ResError {
 		r2.readErr = errC17Resource
 	}
@@ -105,7 +114,11 @@ func c17Context(mode int, commits *int) (*MPCalContext, []*c17Res) {
 	return ctx, []*c17Res{r1, r2}
 }
 
-func c17CheckResult(mode int, err error, stopped bool) {
+func c17CheckResult(mode int, err error, stopped bool, closeFailed, started bool) {
+	if closeFailed && started {
+		verifAssert(err != nil && errors.Is(err, errC17Close), "Run reports the failure of a resource to close")
+		return
+	}
 	switch {
 	case err == nil:
 		verifAssert(mode == c17Done || mode == c17Loop || stopped, "Run reports normal termination only for Done or Stop")
@@ -147,7 +160,8 @@ func HarnessC17_Lifecycle() {
 	for i := 0; i < nstop; i++ {
 		<-stopDone // every Stop call returns (a Stop that never returns shows up as a deadlock)
 	}
-	c17CheckResult(mode, err, true)
+	closeFailed := (res[0].closeErr != nil && res[0].closes > 0) || (res[1].closeErr != nil && res[1].closes > 0)
+	c17CheckResult(mode, err, true, closeFailed, true)
 	for _, c := range commitsAtStop {
 		verifAssert(c == commits, "no critical section commits after a Stop call has returned")
 	}
